@@ -135,7 +135,9 @@ C07Written(r) ==
               \* key signature already in force (harmless; the property does not forbid it)
               /\ \A j \in 1..Len(ctl) :
                     \/ \E dm \in dem : ctl[j][2] = st[dm[1]] /\ Satisfies(ctl[j], dm)
-                    \/ (ctl[j][6] \in textual /\ ctl[j][2] = 0)
+                    \* (a text, lyric or marker event of the writer's own -- a label at tick 0, a "Fine" where the piece ends -- is
+                    \* nobody's business; a text of the DOCUMENT anywhere but at the start of its instance is a violation)
+                    \/ (ctl[j][6] \in textual /\ (ctl[j][2] = 0 \/ \A dm \in dem : dm[2] \in textual => dm[3] # ctl[j][8]))
                     \/ /\ ctl[j][6] \in {mTEMPO, mMETER, mKEYSIG}
                        /\ \E i \in 1..Len(d) : st[i] = ctl[j][2] /\ Satisfies(ctl[j], <<i, ctl[j][6], InForceAt(dem, ctl[j][6], i)>>)
          \* (a text, lyric or marker event that no instance asked for is tolerated at tick 0 only: a writer's own label)
